@@ -43,6 +43,19 @@ Theorem C19_consumer_enforced_partial : forall cc i ins,
 Proof. exact (fun cc i ins Hm Hc Hn => consumer_enforced_never_plain false cc i ins Hm Hc (or_intror Hn)). Qed.
 Print Assumptions C19_consumer_enforced_partial.
 
+(* the scenario runner that every check run compares with the real provider and consumer (start-up, any list of
+   probe / GetMdib / operation / notification / Renew / GetStatus / Unsubscribe / Subscribe, either shutdown order,
+   every configuration): its events respect the statement, so an agreeing implementation trace does too *)
+Theorem C19_scenario_provider_secure : forall c,
+  p_tls (s_pc c) = true -> Forall (secure RP) (snd (run_events c)).
+Proof. exact scenario_provider_secure. Qed.
+Print Assumptions C19_scenario_provider_secure.
+
+Theorem C19_scenario_consumer_secure : forall c,
+  c_mode (s_cc c) = CEnforced -> s_fixed c = true -> Forall (secure RC) (snd (run_events c)).
+Proof. exact (fun c Hm Hf => scenario_consumer_secure c Hm (or_introl Hf)). Qed.
+Print Assumptions C19_scenario_consumer_secure.
+
 (* contexts built from a CA file require and verify the peer certificate in both directions *)
 Theorem C19_ca_requires_peer_cert : forall cy c s,
   mk_ssl_contexts CaGiven cy = Some (c, s) ->
